@@ -351,15 +351,179 @@ def rule_r4(ck, prog, rule='C10.R4'):
                'Scope attaches GetCurrent().SetValue(kSpanKey, span)' if ok else 'Scope does not attach the current context extended with the span under the span key')
 
 
+def rule_r3_resize_callers(ck, prog, rule='C10.R3'):
+    """Resize keeps size_-1 frames (it is written for Push, which has already counted the frame it is about to store): every call of
+    Resize has to come after the size_ increment of the same function, with no decrement in between."""
+    rz = prog.function('ThreadLocalContextStorage::Stack::Resize')
+    g = Graph(prog, rz, inline=None, sync_lambdas=False)
+    rd = reaching_defs(g)
+    loops = [n for n in rz.nodes if n['k'] == 'for']
+    keeps_minus_one = False
+    if loops:
+        cond = comparison(rz, loops[0]['cnd'])
+        if cond:
+            for j in rz.subtree(cond[2]):
+                m = rz.nodes[j]
+                if m['k'] == 'ref' and m.get('sk') == 'local':
+                    lin = linear(g, rd, rz, j, g.root_ctx)
+                    if lin == {'this.size_': 1, '1': -1}:
+                        keeps_minus_one = True
+    cnt = 0
+    for f in sorted(prog.funcs.values(), key=lambda x: x.key):
+        calls = [n for n in f.nodes if n['k'] == 'call' and qmatch(n.get('c', ''), 'ThreadLocalContextStorage::Stack::Resize')]
+        if not calls:
+            continue
+        fg = Graph(prog, f, inline=None, sync_lambdas=False)
+        incs = [p for p in fg.points if p.n is not None and ((p.n['k'] == 'unop' and p.n['op'] == '++' and access_path(f, p.n['e']) == ('this', 'size_')) or
+                                                          (p.n['k'] == 'binop' and p.n['op'] == '+=' and access_path(f, p.n['lhs']) == ('this', 'size_')))]
+        decs = [p for p in fg.points if p.n is not None and ((p.n['k'] == 'unop' and p.n['op'] == '--' and access_path(f, p.n['e']) == ('this', 'size_')) or
+                                                          (p.n['k'] == 'binop' and p.n['op'] in ('-=', '=') and access_path(f, p.n['lhs']) == ('this', 'size_')))]
+        for c in calls:
+            cnt += 1
+            cp = fg.point_of.get((id(fg.root_ctx), c['i']))
+            if not keeps_minus_one:
+                ck.inconclusive(rule, f, 'resize-caller-counts-new-frame@%s' % f.name, c, 'number of frames Resize keeps not recognised as size_-1')
+                continue
+            ok = cp is not None and bool(incs) and fg.must_pass(cp, incs) and \
+                not any(cp.id in fg.reachable_from([q for (q, _l) in d.succ]) and any(d.id in fg.reachable_from([q for (q, _l) in i.succ]) for i in incs) for d in decs) and \
+                not (decs and not incs)
+            ck.verdict(ok, rule, f, 'resize-caller-counts-new-frame@%s' % f.name, c,
+                       'Resize (keeps size_-1 frames) is called after size_ was incremented for the frame being pushed' if ok else
+                       'Resize keeps size_-1 frames, but %s calls it where size_ is the number of live frames: the frame that just became current is not copied and the current context becomes empty' % f.name)
+    if not cnt:
+        raise AnalysisBroken('no caller of Stack::Resize found')
+
+
+def rule_r4_token_flag(ck, prog, rule='C10.R4'):
+    """when the token destructor's detach is conditional on token state, that state is only set once the storage detached the token"""
+    f = prog.function('context::Token::~Token')
+    g = Graph(prog, f, inline=None, sync_lambdas=False)
+    det = g.calls('RuntimeContext::Detach')
+    if not det:
+        return
+    if g.exit.id not in g.reachable_from(g.entry, avoid=det):
+        ck.holds(rule, f, 'token-dtor-detach-unconditional', det[0].n, 'every path through the destructor detaches')
+        return
+    fields = set()
+    for p in g.points:
+        for (q, lab) in p.succ:
+            if lab and isinstance(lab[0], int) and lab[1] is f:
+                for l in leaves(f, lab[0]):
+                    if l[0] == 'field':
+                        fields.add(l[1].split('.')[-1])
+    if not fields:
+        ck.violation(rule, f, 'token-dtor-detach-unconditional', det[0].n, 'the token destructor can skip Detach on a condition that is not token state')
+        return
+    trec = prog.record('context::Token')
+    for fld in sorted(fields):
+        bad = None
+        nw = 0
+        for wf in prog.funcs.values():
+            for n in wf.nodes:
+                tgt = None
+                if n['k'] == 'binop' and n['op'] == '=':
+                    tgt = wf.nodes[n['lhs']]
+                if tgt is None or tgt['k'] != 'member' or tgt['name'] != fld or trec['qn'] not in (tgt.get('owner') or ''):
+                    continue
+                nw += 1
+                wg = Graph(prog, wf, inline=None, sync_lambdas=False)
+                wp = wg.point_of.get((id(wg.root_ctx), n['i']))
+
+                def detached_ok(a, b, lab):
+                    if not lab or not isinstance(lab[0], int):
+                        return False
+                    core, pol = norm_cond(lab[1], lab[0])
+                    cn = lab[1].nodes[core]
+                    names = {strip_targs(lab[1].nodes[j].get('c', '')).rsplit('::', 1)[-1] for j in lab[1].subtree(core) if lab[1].nodes[j]['k'] == 'call'}
+                    if cn['k'] == 'ref' and cn.get('sk') == 'local':
+                        for (sf, sn, sc) in origins(wg, reaching_defs(wg), lab[1], core, a.ctx):
+                            names |= {strip_targs(sf.nodes[j].get('c', '')).rsplit('::', 1)[-1] for j in sf.subtree(sn['i']) if sf.nodes[j]['k'] == 'call'}
+                    return 'Detach' in names and (lab[2] if pol else not lab[2]) is True
+                if wp is None or not wg.must_pass_edge(wp, detached_ok):
+                    bad = (wf, n)
+        if bad:
+            ck.violation(rule, bad[0], 'token-flag-set-only-after-detach:%s' % fld, bad[1],
+                         'Token::%s makes the destructor skip Detach, and it is set without the storage having detached the token: a failed Detach (foreign thread) marks the token, its owner never pops the frame' % fld)
+        elif nw:
+            ck.holds(rule, f, 'token-flag-set-only-after-detach:%s' % fld, det[0].n, '%s is only set behind a successful storage Detach' % fld)
+        else:
+            ck.violation(rule, f, 'token-dtor-detach-unconditional', det[0].n, 'the token destructor skips Detach on %s, which nothing sets' % fld)
+
+
+def rule_r5(ck, prog, rule='C10.R5'):
+    """a lookup returns a node's value only for an exactly equal key: equal length and equal bytes over that length"""
+    f = prog.function('context::Context::GetValue')
+    g = Graph(prog, f, inline=None, sync_lambdas=False)
+    key = f.params[0]
+    hits = [r for r in g.returns() if any(f.nodes[j]['k'] == 'member' and f.nodes[j]['name'] == 'value_' for j in f.subtree(r.n['e']))]
+    if not hits:
+        raise AnalysisBroken('Context::GetValue: the return of a stored value was not found')
+
+    def is_key_size(idx):
+        n = strip_casts(f, idx)
+        return n['k'] == 'call' and strip_targs(n.get('c', '')).rsplit('::', 1)[-1] in ('size', 'length') and n.get('obj') is not None and strip_casts(f, n['obj']).get('id') == key['id']
+
+    def is_len_field(idx):
+        n = strip_casts(f, idx)
+        return n['k'] == 'member' and n['name'] == 'key_length_'
+
+    def len_edge(a, b, lab):
+        if not lab or not isinstance(lab[0], int):
+            return False
+        core, pol = norm_cond(lab[1], lab[0])
+        c = comparison(f, core)
+        if not c or c[0] not in ('==', '!='):
+            return False
+        if (is_key_size(c[1]) and is_len_field(c[2])) or (is_key_size(c[2]) and is_len_field(c[1])):
+            return (lab[2] if pol else not lab[2]) is (c[0] == '==')
+        return False
+    kinds = {}
+
+    def bytes_edge(a, b, lab):
+        if not lab or not isinstance(lab[0], int):
+            return False
+        core, pol = norm_cond(lab[1], lab[0])
+        c = comparison(f, core)
+        truth = (lab[2] if pol else not lab[2])
+        if c and c[0] in ('==', '!='):
+            l, r = strip_casts(f, c[1]), strip_casts(f, c[2])
+            if r['k'] == 'call':
+                l, r = r, l
+            if l['k'] == 'call' and r.get('v') == 0:
+                name = strip_targs(l.get('c', '')).rsplit('::', 1)[-1]
+                if name in ('memcmp', 'strncmp', 'strcmp') and truth is (c[0] == '=='):
+                    kinds[name] = l
+                    if name == 'memcmp' and len(l['args']) == 3 and (is_len_field(l['args'][2]) or is_key_size(l['args'][2])):
+                        return True
+        return False
+    for r in hits:
+        okl = g.must_pass_edge(r, len_edge)
+        okb = g.must_pass_edge(r, bytes_edge)
+        inexact = [k for k in kinds if k != 'memcmp']
+        if okl and okb:
+            ck.holds(rule, f, 'lookup-exact-key', r.n, 'a stored value is returned only behind key.size() == key_length_ and memcmp(...) == 0 over that length')
+        elif not okb and not kinds:
+            ck.inconclusive(rule, f, 'lookup-exact-key', r.n, 'key comparison idiom not recognised')
+        else:
+            ck.violation(rule, f, 'lookup-exact-key', r.n,
+                         'a stored value is returned for a key that is not exactly equal: %s' %
+                         ('the length test is missing, so a stored key matches every lookup key it is a prefix of (or vice versa)' if not okl else
+                          'the bytes are compared with %s, which stops at a NUL / is not bounded by the key length' % ','.join(inexact or ['?'])))
+
+
 def run(ck, prog):
     ck.doc('C10.R1', 'no write to (or move from) a Context / list node that is not rooted in a fresh local', 8)
     ck.doc('C10.R2', 'the runtime context stack has thread storage in the configured compiler variant', 2)
-    ck.doc('C10.R3', 'Detach/Stack typestate and guards (pops, search direction, push/pop/top/resize shape)', 10)
-    ck.doc('C10.R4', 'token destructor detaches itself; Attach pushes the token\'s context; Scope attaches the span', 3)
+    ck.doc('C10.R3', 'Detach/Stack typestate and guards (pops, search direction, push/pop/top/resize shape, Resize callers)', 11)
+    ck.doc('C10.R4', 'token destructor detaches itself (unconditionally, or on state set only after a successful detach); Attach pushes the token\'s context; Scope attaches the span', 4)
+    ck.doc('C10.R5', 'Context lookup returns a stored value only for an exactly equal key (length and bytes)', 1)
     with ck.canary('C10.R1'):
         rule_r1(ck, prog, only='canary::c10::')
     rule_r1(ck, prog)
     rule_r2(ck, prog)
     rule_r3(ck, prog)
+    rule_r3_resize_callers(ck, prog)
     rule_r4(ck, prog)
+    rule_r4_token_flag(ck, prog)
+    rule_r5(ck, prog)
     return {}
